@@ -369,10 +369,11 @@ func goFuncWriteAPI(ps *spec.Proc, t *sp.Task) {
 		inShas = append(inShas, vproto.KV{K: kv.K, V: vproto.Sha(t.InIP(kv.K).Read())})
 	}
 	outs := map[string]string{}
-	for _, kv := range c.Outs {
-		data := vproto.Content(c.ID, kv.K, c.Params, c.Tags, inShas, nil, 40)
-		t.OutIP(kv.K).Write(data)
-		outs[kv.K] = vproto.Sha(data)
+	// every out-port of the task, also those declared only through SetOut / SetOutFunc
+	for port := range t.OutIPs {
+		data := vproto.Content(c.ID, port, c.Params, c.Tags, inShas, nil, 40)
+		t.OutIP(port).Write(data)
+		outs[port] = vproto.Sha(data)
 	}
 	vproto.Emit(&vproto.Event{Ev: "end", ID: c.ID, Key: key, Pid: os.Getpid(), Status: 0, Outs: outs, InProc: true})
 }
